@@ -142,6 +142,18 @@ impl<T: OpResult, R, A> OpState for State<T, R, A> {
         });
         // SAFETY: `Box::into_raw` always returns a valid pointer.
         let data = unsafe { NonNull::new_unchecked(Box::into_raw(data)) };
+        #[cfg(a10_verif)]
+        {
+            let fields = [
+                data.as_ptr().addr() as u64,
+                u64::from(T::IS_MULTISHOT),
+                size_of::<Data<T, R, A>>() as u64,
+                0,
+                0,
+                0,
+            ];
+            crate::verif::emit("OpNew", fields);
+        }
         State { data }
     }
 
@@ -184,6 +196,8 @@ impl<T: OpResult, R, A> OpState for State<T, R, A> {
             let mut shared = unsafe { lock(&self.data.as_ref().shared) };
             if matches!(&shared.status, Status::Running { .. }) {
                 let user_data = self.user_data();
+                #[cfg(a10_verif)]
+                crate::verif::emit("OpDrop", [user_data, 1, 0, 0, 0, 0]);
                 if let Err(err) = sq.submissions().cancel(user_data) {
                     log::debug!("failed to cancel operation, will wait on result: {err}");
                 }
@@ -197,6 +211,8 @@ impl<T: OpResult, R, A> OpState for State<T, R, A> {
                 unlock(shared);
                 return;
             }
+            #[cfg(a10_verif)]
+            crate::verif::emit("OpDrop", [self.user_data(), 0, 0, 0, 0, 0]);
             unlock(shared);
         } // Drop all references to the data.
 
@@ -208,6 +224,8 @@ impl<T: OpResult, R, A> OpState for State<T, R, A> {
         let data = unsafe { &mut *self.data.as_ptr() };
         let mut shared = lock(&data.shared);
         assert!(matches!(shared.status, Status::Complete));
+        #[cfg(a10_verif)]
+        crate::verif::emit("OpReset", [self.user_data(), 0, 0, 0, 0, 0]);
         shared.status = Status::NotStarted;
         data.tail.resources = UnsafeCell::new(MaybeUninit::new(resources));
         data.tail.args = args;
@@ -242,6 +260,8 @@ impl<T: fmt::Debug, R: fmt::Debug, A: fmt::Debug> fmt::Debug for State<T, R, A> 
 /// Caller must ensure the point is safe to drop.
 unsafe fn drop_state<T, R, A>(ptr: *mut ()) {
     let ptr = ptr.cast::<Data<T, R, A>>();
+    #[cfg(a10_verif)]
+    crate::verif::emit("OpFree", [ptr.addr() as u64, 0, 0, 0, 0, 0]);
     {
         // We have to manually drop the resources as it uses MaybeUninit.
         // SAFETY: if we're called we're dropping the value, thus we should have
@@ -266,6 +286,25 @@ impl<T: OpResult> Shared<T> {
     ///
     /// Returns true if the operation data should be dropped by the caller.
     pub(super) fn update(&mut self, completion: &Completion) -> StatusUpdate {
+        #[cfg(a10_verif)]
+        {
+            let status = match &self.status {
+                Status::NotStarted => 0,
+                Status::Running { .. } => 1,
+                Status::Done { .. } => 2,
+                Status::Dropped { .. } => 3,
+                Status::Complete => 4,
+            };
+            let fields = [
+                completion.0.user_data,
+                status,
+                completion.0.res as u32 as u64,
+                u64::from(completion.0.flags),
+                u64::from(self.waker.is_some()),
+                0,
+            ];
+            crate::verif::emit("OpUpdate", fields);
+        }
         match &mut self.status {
             Status::Running { results } | Status::Done { results } => {
                 let completion_result = CompletionResult {
@@ -828,6 +867,8 @@ where
                 });
                 match result {
                     Ok(()) => {
+                        #[cfg(a10_verif)]
+                        crate::verif::emit("OpSubmitted", [state.user_data(), 0, 0, 0, 0, 0]);
                         // Make sure we get awoken when the operation is ready.
                         shared.waker = Some(ctx.waker().clone());
                         shared.status = Status::Running {
@@ -836,6 +877,11 @@ where
                         unlock(shared);
                     }
                     Err(QueueFull) => {
+                        #[cfg(a10_verif)]
+                        {
+                            crate::verif::emit("OpQueueFull", [state.user_data(), 0, 0, 0, 0, 0]);
+                            crate::verif::yield_point("op.queue_full");
+                        }
                         unlock(shared);
                         // Make sure we get awoken when we can retry submitting the
                         // operation.
@@ -850,10 +896,17 @@ where
                 let Some(result) = results.next() else {
                     // No completion yet, try again later.
                     // Make sure we wake using the correct waker.
+                    #[cfg(a10_verif)]
+                    crate::verif::emit("OpPending", [state.user_data(), 0, 0, 0, 0, 0]);
                     set_waker(&mut shared.waker, ctx.waker());
                     unlock(shared);
                     return Poll::Pending;
                 };
+                #[cfg(a10_verif)]
+                crate::verif::emit(
+                    "OpResult",
+                    [state.user_data(), result.result as u32 as u64, u64::from(result.flags.0), 1, 0, 0],
+                );
                 unlock(shared);
                 let res = match result.check_result() {
                     Ok(res) => res,
@@ -873,6 +926,8 @@ where
                 // and Done respectively.
 
                 // Make sure we wake using the correct waker.
+                #[cfg(a10_verif)]
+                crate::verif::emit("OpPending", [state.user_data(), 0, 0, 0, 0, 0]);
                 set_waker(&mut shared.waker, ctx.waker());
                 unlock(shared);
                 return Poll::Pending;
@@ -883,6 +938,8 @@ where
                     assert!(O::IS_MULTISHOT);
 
                     // Processed all results.
+                    #[cfg(a10_verif)]
+                    crate::verif::emit("OpEnd", [state.user_data(), 0, 0, 0, 0, 0]);
                     shared.status = Status::Complete;
                     unlock(shared);
                     // SAFETY: this is only safe because we set the status to
@@ -904,6 +961,11 @@ where
                     asan::unpoison(data.tail.resources.get());
                 }
 
+                #[cfg(a10_verif)]
+                crate::verif::emit(
+                    "OpResult",
+                    [state.user_data(), result.result as u32 as u64, u64::from(result.flags.0), 2, 0, 0],
+                );
                 match result.check_result() {
                     Ok(res) => {
                         unlock(shared);
@@ -926,6 +988,8 @@ where
                         } else {
                             assert!(matches!(shared.status, Status::Complete));
                         }
+                        #[cfg(a10_verif)]
+                        crate::verif::emit("OpRestart", [state.user_data(), 0, 0, 0, 0, 0]);
                         shared.status = Status::NotStarted;
                         // Try again in the next iteration.
                         // NOTE: still holding the lock.
